@@ -65,9 +65,9 @@ def evaluator_case(draw):
         return default
     it = maybe(st.sampled_from(["SEMANTIC", "UNMATCHED_INSTANCE"]), "MATCHED_INSTANCE")
     groups = maybe(gen.group_defs(name_alphabet="abcXYZ019-_ .:"), None)
-    imets = maybe(st.lists(st.sampled_from(["DSC", "IOU", "ASSD", "RVD"]), min_size=1, max_size=4, unique=True), None)
+    imets = maybe(st.lists(st.sampled_from(["DSC", "IOU", "ASSD", "RVD"]), min_size=0, max_size=4, unique=True), None)
     gmets = maybe(st.lists(st.sampled_from(["DSC", "IOU", "ASSD", "RVD"]), min_size=0, max_size=3, unique=True), None)
-    eff_i = imets or ["DSC", "IOU", "ASSD", "RVD"]
+    eff_i = imets if imets is not None else ["DSC", "IOU", "ASSD", "RVD"]
     eff_g = gmets if gmets is not None else ["DSC"]
     dec = None
     if draw(st.booleans()):
